@@ -317,6 +317,28 @@ print("C02FRESH" + json.dumps(out))
 """
 
 
+# red-team round 5: a population with more fronts than the interpreter's recursion limit (a 1100-deep domination chain), sorted
+# in its own interpreter (default recursion limit, shallow call stack) while the main stream runs; oracle-only (closed form)
+DEEP_N = 1100
+DEEP_SCRIPT = r"""
+import sys, json
+import artap.operators as ops
+from artap.individual import Individual
+P = json.load(sys.stdin)
+inds = []
+for k in P["order"]:
+    x = Individual([0.5, 0.5]); x.costs = [float(k), float(k // 2)]; x.costs_signed = x.costs + [P["marker"]]
+    inds.append(x)
+err = None
+try:
+    ops.TournamentSelector([]).fast_nondominated_sorting(inds)
+except BaseException as e:
+    err = repr(e)[:300]
+print("C02DEEP" + json.dumps({"error": err, "front": [x.features.get("front_number") for x in inds],
+                              "distinct_ids": len({x.id for x in inds})}))
+"""
+
+
 def fresh_scenarios(rng, corpus):
     """creation plans for the fresh interpreters: (create list, population order, members)"""
     plans = []
@@ -401,7 +423,8 @@ def run(ctx):
     stats = {"template": {}, "markers": {}, "size": {}, "objectives": {}, "max_rank": {}, "with_duplicates": 0,
              "with_domination": 0, "with_incomparable_pair": 0, "stale_features": 0, "scrambled_ids": 0,
              "order_checks": 0, "classes": {}, "vectors": {}, "constructed_by": {}, "populations_with_two_or_more_classes": 0,
-             "id_collisions": 0, "selector": {}, "tournaments_before_sorting": 0}
+             "id_collisions": 0, "selector": {}, "tournaments_before_sorting": 0,
+             "populations_with_shared_costs_signed_lists": 0, "pairs_sharing_one_costs_signed_list": 0}
 
     def bump(d, k):
         d[str(k)] = d.get(str(k), 0) + 1
@@ -466,20 +489,39 @@ def run(ctx):
                 model_ids.append(i - base)
         return model_ids, len(seen) < len(raw)
 
-    def implementation(pop, ids_mode, stale, cmode="plain", vmode="costs", chosen=None):
-        """Runs the real sorter on real Individuals; returns the observation (ids relative to the case)."""
+    def implementation(pop, ids_mode, stale, cmode="plain", vmode="costs", chosen=None, twin_of=None):
+        """Runs the real sorter on real Individuals; returns the observation (ids relative to the case).
+        twin_of: {position j: earlier position i} - member j is a `.copy()` twin of member i (equal costs and marker) and
+        SHARES the costs_signed list object of i (IndividualNSGAII.copy, Individual.sync hand the list over by reference)."""
+        twin_of = twin_of or {}
+        sources = set(twin_of.values())
         selector, spec = chosen or pick_selector()
         tournaments = rng.random() < 0.3
         inds, classes, routes = [], [], []
         one = rng.choice(CNAMES[1:])
         gridv = [[rng.choice([0.0, 0.5, 1.0]) for _ in range(2)] for _ in range(3)]
-        for (c, mk) in pop:
+        for k, (c, mk) in enumerate(pop):
             cname = {"plain": "plain", "one_class": one}.get(cmode) or rng.choice(CNAMES)
             route = "new" if cmode == "plain" and rng.random() < 0.8 else rng.choice(["new", "new", "copy", "from_dict", "copy_of_member"])
             vector = {"costs": [float(v) if math.isfinite(v) else 0.0 for v in c], "same": [0.5, 0.5]}.get(vmode) or rng.choice(gridv)
-            x = construct(cname, route, vector, inds)
-            x.costs = list(c)
-            x.costs_signed = list(c) + [mk]
+            if k in sources and k not in twin_of and rng.random() < 0.6:
+                cname, route = "nsga2", "new"          # the class whose copy() shares the list
+            if k in twin_of:
+                src = inds[twin_of[k]]
+                assert pop[twin_of[k]] == (c, mk)
+                if type(src) is IndividualNSGAII:
+                    x = src.copy()                      # shares costs and costs_signed with src
+                    burn(skip="nsga2")
+                    route = "copy_sharing_costs_signed"
+                else:                                   # what Individual.sync does with the lists
+                    x = construct(cname, route, vector, inds)
+                    x.costs, x.costs_signed = src.costs, src.costs_signed
+                    route += "+costs_signed_by_reference"
+                assert x is not src and x.costs_signed is src.costs_signed
+            else:
+                x = construct(cname, route, vector, inds)
+                x.costs = list(c)
+                x.costs_signed = list(c) + [mk]
             inds.append(x)
             classes.append(type(x).__name__)
             routes.append(route)
@@ -541,6 +583,9 @@ def run(ctx):
                 x.features["domination_counter"] = rng.choice([1, 5, -2])
                 x.features["front_number"] = rng.choice([None, 1, 9])
                 x.features["dominate"] = [rng.choice(raw)]
+        for j, i in sorted(twin_of.items()):   # (a re-evaluation / reload above may have given the twins lists of their own)
+            inds[j].costs_signed = inds[i].costs_signed
+            assert inds[j] is not inds[i] and inds[j].costs_signed == list(pop[j][0]) + [pop[j][1]]
         fronts = []
         real_cd = ops.crowding_distance
         pos = {id(x): k for k, x in enumerate(inds)}
@@ -555,6 +600,7 @@ def run(ctx):
             ops.crowding_distance = real_cd
         return {"ids": model_ids, "raw_ids": [i - base for i in raw], "classes": classes, "routes": routes,
                 "id_collision": collision, "selector": dict(spec, tournaments_before=tournaments),
+                "shared_lists": sum(inds[j].costs_signed is inds[i].costs_signed for j, i in twin_of.items()),
                 "front": [x.features["front_number"] for x in inds],
                 "counter": [x.features["domination_counter"] for x in inds],
                 "dominate": [[i - base for i in x.features["dominate"]] for x in inds],
@@ -582,9 +628,12 @@ def run(ctx):
         assert fr == ranks
         return True
 
-    def add_case(pop, tname, mkind, ids_mode="real", stale="fresh", cmode="plain", vmode="costs", given=None, chosen=None):
+    def add_case(pop, tname, mkind, ids_mode="real", stale="fresh", cmode="plain", vmode="costs", given=None, chosen=None,
+                 twin_of=None):
         inp = {"population_costs_signed": [list(c) + [mk] for c, mk in pop], "ids": ids_mode, "stale_features": stale,
                "classes": cmode, "vectors": vmode}
+        if twin_of:
+            inp["members_sharing_one_costs_signed_list_object"] = sorted([i, j] for j, i in twin_of.items())
         try:
             if given is not None:          # observed in a fresh interpreter
                 inp.update(member_classes=given["classes"], member_ids=given["raw"], created=given["created"])
@@ -596,7 +645,7 @@ def run(ctx):
                        "routes": [], "id_collision": collision, "front": given["front"], "counter": given["counter"],
                        "dominate": [[i - base for i in l] for l in given["dominate"]], "fronts": given["fronts"]}
             else:
-                obs = implementation(pop, ids_mode, stale, cmode, vmode, chosen)
+                obs = implementation(pop, ids_mode, stale, cmode, vmode, chosen, twin_of)
             inp.update(member_classes=obs["classes"], member_ids=obs["raw_ids"], constructed_by=obs["routes"],
                        selector=obs.get("selector"))
         except Exception as e:      # the sorter must rank every population; a crash leaves everybody unranked
@@ -620,6 +669,10 @@ def run(ctx):
              "population": [{"id": i, "class": k, "costs_signed": list(c) + [mk]}
                             for i, k, (c, mk) in zip(obs["raw_ids"], obs["classes"], pop)],
              "observed": obs}
+        if twin_of:
+            m["members_sharing_one_costs_signed_list_object"] = inp["members_sharing_one_costs_signed_list_object"]
+            stats["populations_with_shared_costs_signed_lists"] += 1
+            stats["pairs_sharing_one_costs_signed_list"] += obs.get("shared_lists", 0)
         if obs["id_collision"]:
             stats["id_collisions"] += 1
             m["note"] = "distinct Individual objects of this population carry the same id (the model ranks per object)"
@@ -684,6 +737,17 @@ def run(ctx):
         pr.stdin.close()
         procs.append(pr)
 
+    # red-team round 5: the 1100-deep chain in three input orders, each in its own interpreter, collected at the end
+    deep_orders = {"best_first": list(range(DEEP_N)), "worst_first": list(reversed(range(DEEP_N))),
+                   "shuffled": rng.sample(range(DEEP_N), DEEP_N)}
+    deep_procs = []
+    for oname, order in deep_orders.items():
+        pr = subprocess.Popen([sys.executable, "-W", "ignore", "-c", DEEP_SCRIPT], stdin=subprocess.PIPE, stdout=subprocess.PIPE,
+                              stderr=subprocess.PIPE, text=True)
+        pr.stdin.write(json.dumps({"order": order, "marker": rng.choice([True, True, 0, False])}))
+        pr.stdin.close()
+        deep_procs.append((oname, order, pr))
+
     # first of all, while no Individual has been created in this process yet (all id state in its initial state): seed
     # designs and algorithm individuals created alternately, as a DoE-seeded run does right after start-up
     for pop in corpus:
@@ -736,6 +800,96 @@ def run(ctx):
                         "input": {"population_costs_signed": [list(c) + [mk] for c, mk in pop], "member": k, "order": order},
                         "match": {"kind": "order", "template": tname}})
 
+    # ---- red-team round 5: twins that SHARE one costs_signed list object ----------------------------------------------------
+    # IndividualNSGAII.copy() and Individual.sync() hand the list of the signed costs over by reference: an individual and its
+    # copy are two members (two ids) with one list object.  The model sees two equal cost vectors; the sorter must too,
+    # whatever pair it compared just before.  Twins are interleaved with dominating / dominated members, several orders.
+    def twin_population(base, picks):
+        """base + one twin per pick (a pick may name a member twice: three members on one list); returns pop, group ids"""
+        pop, gid = list(base), [None] * len(base)
+        for k in picks:
+            gid[k] = k
+            pop.append(base[k])
+            gid.append(k)
+        return pop, gid
+
+    def add_twin_case(pop, gid, order, tname, mkind, **kw):
+        first, twin_of = {}, {}
+        for posn, k in enumerate(order):
+            if gid[k] is not None:
+                if gid[k] in first:
+                    twin_of[posn] = first[gid[k]]
+                else:
+                    first[gid[k]] = posn
+        return add_case([pop[k] for k in order], tname, mkind, twin_of=twin_of, **kw)
+
+    T3 = [([0.0, 0.0], T), ([1.0, 1.0], T), ([2.0, 2.0], T)]
+    for base, picks in ((T3, [1]), (T3, [0]), (T3, [2]), (T3, [1, 1]), (T3, [0, 2]), (corpus[6], [0, 3]), (corpus[9], [2, 4]),
+                        (corpus[8], [1, 4]), (corpus[11], [4]), (corpus[11], [0, 3])):
+        pop, gid = twin_population(base, picks)
+        n = len(pop)
+        for order in (list(range(n)), list(reversed(range(n))), [n - 1] + list(range(n - 1)), rng.sample(range(n), n)):
+            for stale in ("fresh", "presorted"):
+                add_twin_case(pop, gid, order, "twins_shared_list", "corpus", stale=stale, cmode="mixed")
+    for _ in range(ctx.pick(70, 500)):
+        tname, mkind, base = gen_population(rng, min(nmax, ctx.pick(9, 20)))
+        if not base:
+            continue
+        picks = [rng.randrange(len(base)) for _ in range(rng.choice([1, 1, 2, 3]))]
+        pop, gid = twin_population(base, picks)
+        by_key = {}
+        for sh in range(n_shuffles):
+            order = list(range(len(pop)))
+            if sh == 1:
+                order.reverse()
+            elif sh > 1:
+                rng.shuffle(order)
+            obs = add_twin_case(pop, gid, order, "twins_shared_list", mkind,
+                                ids_mode="scrambled" if rng.random() < 0.2 else "real",
+                                stale=rng.choice(["fresh", "fresh", "presorted", "garbage", "recosted", "reloaded"]),
+                                cmode=rng.choice(["plain", "one_class", "mixed", "mixed"]),
+                                vmode=rng.choice(["costs", "same", "grid"]))
+            if obs is None:
+                continue
+            for k, fr in zip(order, obs["front"]):
+                stats["order_checks"] += 1
+                if by_key.setdefault(k, fr) != fr:
+                    ctx.oracle_failures.append({
+                        "what": "front number of a member depends on the input order: %r vs %r" % (by_key[k], fr),
+                        "input": {"population_costs_signed": [list(c) + [mk] for c, mk in pop], "member": k, "order": order,
+                                  "members_sharing_one_costs_signed_list_object": [[a, b] for b, a in enumerate(gid) if a is not None and a != b]},
+                        "match": {"kind": "order", "template": "twins_shared_list"}})
+
+    # ---- red-team round 5: more fronts than the recursion limit: oracle only, closed form -------------------------------------
+    # member with cost (k, k // 2) of the chain has exactly the members 0..k-1 as dominators: front number k + 1
+    stats["deep_chain_oracle_only"] = {"members": DEEP_N, "orders": []}
+    for oname, order, pr in deep_procs:
+        text, err = pr.stdout.read(), pr.stderr.read()
+        pr.wait()
+        lines = [l for l in text.splitlines() if l.startswith("C02DEEP")]
+        inp = {"population": "domination chain: member k has costs_signed [k, k // 2, marker], k = 0..%d" % (DEEP_N - 1),
+               "input_order": oname, "first_members_of_the_order": order[:8], "size": DEEP_N}
+        ctx.count(("deep_chain", oname, tuple(order[:16])), nontrivial=True)
+        if not lines:
+            ctx.oracle_failures.append({"what": "the interpreter sorting a %d-deep domination chain died: %s" % (DEEP_N, err[-400:]),
+                                        "input": inp, "match": {"kind": "raised", "case": {"template": "deep_chain", "n": DEEP_N}}})
+            continue
+        got = json.loads(lines[0][7:])
+        stats["deep_chain_oracle_only"]["orders"].append(oname)
+        fr = got["front"]
+        unranked = [i for i, v in enumerate(fr) if not isinstance(v, int) or isinstance(v, bool)]
+        wrong = [i for i, (v, k) in enumerate(zip(fr, order)) if v != k + 1]
+        if got["error"] or unranked:
+            ctx.oracle_failures.append({"what": "%d-deep domination chain (%d fronts): %s; %d individuals are left without a front number (first: position %s, true rank %s)"
+                                        % (DEEP_N, DEEP_N, "the sorter raised " + got["error"] if got["error"] else "no exception", len(unranked),
+                                           unranked[:1], [order[i] + 1 for i in unranked[:1]]),
+                                        "input": inp, "match": {"kind": "raised" if got["error"] else "unranked", "case": {"template": "deep_chain", "n": DEEP_N}}})
+        elif wrong or got["distinct_ids"] != DEEP_N:
+            i = wrong[0] if wrong else None
+            ctx.oracle_failures.append({"what": "%d-deep domination chain: individual at position %r carries front number %r, required %r (its dominators are the %r members with smaller costs)"
+                                        % (DEEP_N, i, fr[i] if wrong else None, order[i] + 1 if wrong else None, order[i] if wrong else None),
+                                        "input": inp, "match": {"kind": "rank", "case": {"template": "deep_chain", "n": DEEP_N}}})
+
     stats["fresh_interpreter_populations"] = 0
     for plan, pr in zip(plans, procs):
         text = pr.stdout.read()
@@ -768,7 +922,10 @@ def run(ctx):
                 "position, DummySelector, CopySelector, the selectors OMOPSO / SMPSO / PSOGA / NSGAII / EpsMOEA build for themselves), "
                 "one long-lived object per construction or a fresh one, in 30 %% of the cases after binary tournaments on it; compared per individual: front_number, final domination_counter, "
                 "dominate ids, and the fronts passed to crowding_distance; non-trivial = at least two members; distinct = distinct "
-                "ordered population") % (MARKERS, n_shuffles, len(plans))
+                "ordered population; populations with `.copy()` twins (two or three members, distinct ids, SHARING one costs_signed list "
+                "object as IndividualNSGAII.copy / Individual.sync produce) interleaved with dominating / dominated members in %d orders; "
+                "direct oracle only (closed form, not evaluated by the model): a %d-deep domination chain (more fronts than the "
+                "recursion limit) best-first, worst-first and shuffled, each sorted in its own interpreter") % (MARKERS, n_shuffles, len(plans), n_shuffles, DEEP_N)
     ctx.extra.update({"input_distribution": stats, "max_population_size": nmax})
 
 
@@ -798,6 +955,8 @@ def replay(ctx, data):
     by_name = {c.__name__: c for c in (Individual, IndividualNSGAII, IndividualSwarm, IndividualEpsMOEA)}
     pops = [(f["input"]["population_costs_signed"], f["input"].get("member_classes"))
             for f in data.get("failing_inputs", []) if "population_costs_signed" in f.get("input", {})]
+    shared = [f["input"].get("members_sharing_one_costs_signed_list_object") or []
+              for f in data.get("failing_inputs", []) if "population_costs_signed" in f.get("input", {})]
     pops += [([x["costs_signed"] for x in m["case"]["population"]], [x.get("class", "Individual") for x in m["case"]["population"]])
              for m in data.get("correspondence_mismatches", [])
              if isinstance(m.get("case"), dict) and "population" in m["case"]]
@@ -805,7 +964,9 @@ def replay(ctx, data):
     specs += [(m["case"].get("observed") or {}).get("selector") for m in data.get("correspondence_mismatches", [])
               if isinstance(m.get("case"), dict) and "population" in m["case"]]
     bad = 0
-    for (rows, classes), spec in zip(pops[:5], specs):
+    shared += [(m["case"].get("members_sharing_one_costs_signed_list_object") or []) for m in data.get("correspondence_mismatches", [])
+               if isinstance(m.get("case"), dict) and "population" in m["case"]]
+    for (rows, classes), spec, pairs in zip(pops[:5], specs, shared):
         pop = [(r[:-1], r[-1]) for r in rows]
         if spec and not spec.get("from"):         # the sorter is rebuilt the way the failing case constructed it
             selector = make_selector(ops, spec)
@@ -817,6 +978,8 @@ def replay(ctx, data):
             x = by_name.get(cname, Individual)([0.5, 0.5])
             x.costs, x.costs_signed = list(c), list(c) + [mk]
             inds.append(x)
+        for i, j in pairs:                        # twins sharing one list object, as recorded
+            inds[j].costs_signed = inds[i].costs_signed
         try:
             selector.fast_nondominated_sorting(inds)
             observed = [x.features["front_number"] for x in inds]
